@@ -364,7 +364,9 @@ func checkC15(c *Ctx) {
 	c.c15ReplayRegister(hubFns, fHist, fList)
 	c.c15Broadcast(hubFns, fList, fOp)
 	c.c15DropFailed(hubFns, fList)
+	c.c15FailedIsDropped(hubFns, fList)
 	c.c15QueueCapacity()
+	c.c15CloseOnce()
 	c.c15Wiring()
 	c.c15Identity(hubFns)
 
@@ -1719,4 +1721,297 @@ func (c *Ctx) c15Identity(hubFns []*ssa.Function) {
 	if nBad == 0 {
 		r.Ok(rule, "hub-state", "", "no hub map is keyed by a message id alone")
 	}
+}
+
+// c15CloseOnce: a listener's signal channel is closed by whichever side gives up first — the hub
+// goroutine (queue full), the socket reader, the socket writer. A close that more than one
+// goroutine can reach must be made at most once by construction: inside sync.Once.Do, under a
+// mutex of the listener, or behind an atomic swap. A check-then-close (`select { case <-done:
+// default: close(done) }`) lets two goroutines both pass the check; the second close panics —
+// on the hub goroutine that aborts the broadcast for every later listener.
+func (c *Ctx) c15CloseOnce() {
+	p, r := c.P, c.R
+	rule := "C15/LISTENER/close-once"
+	r.Rule(rule, "every close of a channel owned by a msghub.Listener implementer that is reachable from more than one goroutine root (go targets, the Listener methods the hub calls, HTTP handlers) runs inside sync.Once.Do, under a mutex of the listener, or on the winning edge of an atomic swap")
+	n := 0
+	handlers := c.webHandlers()
+	for _, T := range c.listenerImpls() {
+		pkgPath := T.Obj().Pkg().Path()
+		pkgRel := strings.TrimPrefix(pkgPath, eng.Mod+"/")
+		fns := pkgFuncs(p, pkgRel)
+		// functions run by Once.Do
+		onceRun := map[*ssa.Function]bool{}
+		var roots []*ssa.Function
+		addRoot := func(g *ssa.Function) {
+			if g == nil {
+				return
+			}
+			for _, x := range roots {
+				if x == g {
+					return
+				}
+			}
+			roots = append(roots, g)
+		}
+		for _, fn := range fns {
+			eng.EachInstr(fn, func(in ssa.Instruction) {
+				switch x := in.(type) {
+				case *ssa.Call:
+					if eng.CalleeName(x.Common()) == "(*sync.Once).Do" && len(x.Call.Args) == 2 {
+						var g *ssa.Function
+						switch a := x.Call.Args[1].(type) {
+						case *ssa.MakeClosure:
+							g, _ = a.Fn.(*ssa.Function)
+						case *ssa.Function:
+							g = a
+						}
+						if g != nil {
+							for h := range p.SyncReach(g) {
+								onceRun[h] = true
+							}
+						}
+					}
+				case *ssa.Go:
+					if g := eng.StaticCallee(x.Common()); g != nil {
+						addRoot(g)
+					} else if mc, ok := x.Call.Value.(*ssa.MakeClosure); ok {
+						if g, ok := mc.Fn.(*ssa.Function); ok {
+							addRoot(g)
+						}
+					}
+				}
+			})
+		}
+		ln := p.Named("pkg/msghub", "Listener")
+		if ln != nil {
+			li := ln.Underlying().(*types.Interface)
+			for i := 0; i < li.NumMethods(); i++ {
+				addRoot(p.MethodOf(T, li.Method(i).Name()))
+			}
+		}
+		for _, h := range handlers {
+			if eng.FuncPkgPath(h) == pkgPath {
+				addRoot(h)
+			}
+		}
+		for _, oc := range ownedChanFields(T) {
+			for _, fn := range fns {
+				fn := fn
+				eng.EachInstr(fn, func(in ssa.Instruction) {
+					call, ok := in.(*ssa.Call)
+					if !ok || eng.CalleeName(call.Common()) != "builtin.close" || len(call.Call.Args) != 1 {
+						return
+					}
+					if !eng.SameField(eng.LoadedField(eng.StripConv(call.Call.Args[0])), oc.f) {
+						return
+					}
+					n++
+					cons := "close:" + oc.name + "@" + shortFn(fn)
+					if onceRun[fn] {
+						r.Ok(rule, cons, p.InstrPos(in), "runs inside sync.Once.Do")
+						return
+					}
+					guarded := ""
+					for _, b := range fn.Blocks {
+						for _, x := range b.Instrs {
+							cl, ok := x.(*ssa.Call)
+							if !ok || !eng.Dominates(x, in) {
+								continue
+							}
+							nm := eng.CalleeName(cl.Common())
+							if nm == "(*sync.Mutex).Lock" || nm == "(*sync.RWMutex).Lock" {
+								guarded = "under a mutex taken at " + p.InstrPos(x)
+							}
+						}
+						if len(b.Succs) == 2 {
+							for k := 0; k < 2; k++ {
+								v, _, ok := eng.CondTruth(b, k)
+								if !ok || !eng.EdgeDominates(b, k, in.Block()) {
+									continue
+								}
+								if cl, ok := v.(*ssa.Call); ok && strings.Contains(eng.CalleeName(cl.Common()), "sync/atomic") {
+									guarded = "behind the atomic operation at " + p.InstrPos(cl)
+								}
+							}
+						}
+					}
+					if guarded != "" {
+						r.Ok(rule, cons, p.InstrPos(in), "%s", guarded)
+						return
+					}
+					var from []string
+					for _, rt := range roots {
+						if p.SyncReach(rt)[fn] {
+							from = append(from, shortFn(rt))
+						}
+					}
+					sort.Strings(from)
+					if len(from) > 1 {
+						r.Bad(rule, cons, p.InstrPos(in), "this close can be reached from %d goroutines (%s) and nothing makes it happen only once: two of them giving up at the same moment (a slow peer being dropped by the hub just as it disconnects) both pass any preceding test, the second close panics — on the hub goroutine the broadcast is aborted and later listeners miss the event, on a bare goroutine the process dies", len(from), strings.Join(from, ", "))
+					} else {
+						r.Ok(rule, cons, p.InstrPos(in), "reachable from one goroutine root only (%s)", strings.Join(from, ", "))
+					}
+				})
+			}
+		}
+	}
+	r.Floor(rule, "closes of listener-owned channels", n, 2)
+}
+
+// c15FailedIsDropped: "a listener that fails … is dropped". In the hub's relay loops (a range
+// over Hub.listeners) the error of the Listener call made on the loop's listener is tested, and
+// from its failure edge the next round of the loop is not reachable without a
+// delete(Hub.listeners, ·) on the way. A failed listener that stays registered is handed every
+// later event as well: its queue is full or its socket gone, each relay to it fails again, and a
+// listener that fails by blocking for its timeout stalls the hub once per event for good.
+func (c *Ctx) c15FailedIsDropped(hubFns []*ssa.Function, fList *types.Var) {
+	r, p := c.R, c.P
+	rule := "C15/ISOLATE/failed-is-dropped"
+	r.Rule(rule, "in every range over Hub.listeners the error of the Listener method called on the loop's listener is tested, and its failure edge does not reach the next iteration without delete(Hub.listeners, ·)")
+	ln := p.Named("pkg/msghub", "Listener")
+	if ln == nil {
+		return
+	}
+	li := ln.Underlying().(*types.Interface)
+	isDel := func(x ssa.Instruction) bool {
+		call, ok := x.(*ssa.Call)
+		return ok && eng.CalleeName(call.Common()) == "builtin.delete" && len(call.Call.Args) == 2 && eng.SameField(eng.LoadedField(call.Call.Args[0]), fList)
+	}
+	n := 0
+	ord := map[string]int{}
+	for _, fn := range hubFns {
+		fn := fn
+		eng.EachInstr(fn, func(in ssa.Instruction) {
+			call, ok := in.(*ssa.Call)
+			if !ok {
+				return
+			}
+			isL := false
+			mname := ""
+			if call.Call.IsInvoke() {
+				for i := 0; i < li.NumMethods(); i++ {
+					if li.Method(i) == call.Call.Method {
+						isL = true
+						mname = call.Call.Method.Name()
+					}
+				}
+			} else if eng.StaticCallee(call.Common()) == nil {
+				// broadcast(send func(Listener) error): the relay is a function value that is
+				// handed the loop's listener and answers with an error
+				if res := call.Call.Signature().Results(); res.Len() == 1 && isErrorType(res.At(0).Type()) {
+					for _, a := range call.Call.Args {
+						if types.Identical(a.Type(), ln) {
+							isL = true
+							mname = "callback"
+						}
+					}
+				}
+			}
+			if !isL {
+				return
+			}
+			// inside a range over the listener set
+			var next *ssa.Next
+			for _, h := range loopHeaders(call.Block()) {
+				for _, hi := range h.Instrs {
+					if nx, isN := hi.(*ssa.Next); isN {
+						if rg, isR := nx.Iter.(*ssa.Range); isR && eng.SameField(eng.LoadedField(rg.X), fList) {
+							next = nx
+						}
+					}
+				}
+			}
+			if next == nil {
+				return
+			}
+			n++
+			cons := siteCons(p, in, ord, "relay:"+mname)
+			var errV ssa.Value = call
+			if tup, isT := call.Type().(*types.Tuple); isT {
+				errV = extractOf(call, tup.Len()-1)
+			}
+			if errV == nil {
+				r.Bad(rule, cons, p.InstrPos(in), "the listener's error is discarded: a failed listener is never dropped")
+				return
+			}
+			aliases := append(eng.ValueAliases(errV), errV)
+			var starts []*ssa.BasicBlock
+			for _, b := range fn.Blocks {
+				for k := 0; k < len(b.Succs) && len(b.Succs) == 2; k++ {
+					rel, okR := eng.EdgeRel(b, k)
+					if !okR || rel.Op != token.NEQ {
+						continue
+					}
+					x, y := rel.X, rel.Y
+					if eng.IsNilConst(x) {
+						x, y = y, x
+					}
+					if !eng.IsNilConst(y) {
+						continue
+					}
+					for _, a := range aliases {
+						if a == x {
+							starts = append(starts, b.Succs[k])
+						}
+					}
+				}
+			}
+			if len(starts) == 0 && errV.Referrers() != nil {
+				// handed to a helper that answers for it: dropOnError(l, err)
+				for _, ref := range *errV.Referrers() {
+					hc, isC := ref.(*ssa.Call)
+					if !isC {
+						continue
+					}
+					g := eng.StaticCallee(hc.Common())
+					if g == nil || !eng.InModule(g) || len(g.Blocks) == 0 {
+						continue
+					}
+					for ai, a := range hc.Call.Args {
+						if a != errV || ai >= len(g.Params) {
+							continue
+						}
+						prm := g.Params[ai]
+						okH, tested := true, false
+						for _, b := range g.Blocks {
+							for k := 0; k < len(b.Succs) && len(b.Succs) == 2; k++ {
+								rel, okR := eng.EdgeRel(b, k)
+								if !okR || rel.Op != token.NEQ {
+									continue
+								}
+								x, y := rel.X, rel.Y
+								if eng.IsNilConst(x) {
+									x, y = y, x
+								}
+								if !eng.IsNilConst(y) || x != ssa.Value(prm) {
+									continue
+								}
+								tested = true
+								if (&eng.Search{Target: eng.IsReturnOf(g), Avoid: isDel, Deep: true}).FromBlockStart(b.Succs[k]) != nil {
+									okH = false
+								}
+							}
+						}
+						if tested && okH {
+							r.Ok(rule, cons, p.InstrPos(in), "the error is handed to %s, whose failure edge removes the listener", shortFn(g))
+							return
+						}
+					}
+				}
+			}
+			if len(starts) == 0 {
+				r.Bad(rule, cons, p.InstrPos(in), "the error of the relay to this listener is never acted on (no branch depends on it): a listener that failed stays registered")
+				return
+			}
+			for _, sb := range starts {
+				s := &eng.Search{Target: func(x ssa.Instruction) bool { return x == ssa.Instruction(next) }, Avoid: isDel, Deep: true}
+				if hit := s.FromBlockStart(sb); hit != nil {
+					r.Bad(rule, cons, p.InstrPos(in), "from the failure edge of this relay the loop goes on to the next listener without removing the failed one from Hub.listeners: it is handed every later event too, fails each time, and — failing by timeout — holds the hub up once per event")
+					return
+				}
+			}
+			r.Ok(rule, cons, p.InstrPos(in), "the failure edge removes the listener before the next iteration")
+		})
+	}
+	r.Floor(rule, "Listener calls in relay loops", n, 1)
 }
